@@ -1,6 +1,6 @@
-(* Extraction of the executable C15 replay (ExtrOcamlBasic only). *)
+(* Extraction of the executable C15 replays (ExtrOcamlBasic only). *)
 From Coq Require Import ExtrOcamlBasic.
 From Coq Require Extraction.
-From LJT Require Import model.Threads model.ErrState.
+From LJT Require Import model.Threads model.ErrState model.ErrCode.
 Extraction Language OCaml.
-Extraction "x_c15.ml" lreplay.
+Extraction "x_c15.ml" lreplay lcreplay.
